@@ -1271,4 +1271,79 @@ example : dropJoint [exM0, [[⟨0, 0, false⟩, ⟨100, 0, true⟩, ⟨200, 0, t
   rw [C02_drop_joint_error]
   exact ⟨exM0, _, rfl, _, List.mem_singleton.mpr rfl, by decide⟩
 
+/-! ### the recursion is the Python index arithmetic -/
+
+theorem maskGo_length (t : QPt → QPt → QPt → Bool) (first : QPt) : ∀ (l : List QPt) (prev : QPt),
+    (maskGo t first prev l).length = l.length
+  | [], _ => rfl
+  | p :: r, _ => by simp [maskGo, maskGo_length t first r p]
+
+theorem maskGo_getD (t : QPt → QPt → QPt → Bool) (first : QPt) : ∀ (l : List QPt) (prev : QPt) (j : Nat), j < l.length →
+    (maskGo t first prev l).getD j false =
+      t (if j = 0 then prev else l.getD (j - 1) first) (l.getD j first) (if j + 1 < l.length then l.getD (j + 1) first else first)
+  | [], _, _, h => by simp at h
+  | p :: r, prev, 0, _ => by
+    cases r <;> simp [maskGo]
+  | p :: r, prev, j + 1, h => by
+    have hj : j < r.length := by simpa using h
+    have ih := maskGo_getD t first r p j hj
+    simp only [maskGo, getD_cons_succ, ih, length_cons, Nat.add_lt_add_iff_right, Nat.add_sub_cancel]
+    cases j with
+    | zero => simp
+    | succ k => simp
+
+theorem getD_length_cons (p : QPt) : ∀ (r : List QPt) (d : QPt), (p :: r).getD r.length d = r.getLastD p
+  | [], _ => rfl
+  | q :: r, d => by
+    rw [length_cons, getD_cons_succ, getD_length_cons q r d, getLastD_cons]
+
+/-- **mayDrop_spec**: the model's neighbour recursion is exactly `prv = i - 1 if i > start else last`,
+    `nxt = i + 1 if i < last else start`: index `i` is selected iff the code's test passes on the cyclic neighbours -/
+theorem mayDrop_spec (c : List QPt) (d : QPt) (i : Nat) :
+    i ∈ mayDrop c ↔ i < c.length ∧
+      dropTest (c.getD ((i + c.length - 1) % c.length) d) (c.getD i d) (c.getD ((i + 1) % c.length) d) = true := by
+  rw [mayDrop, mem_trueIdx]
+  simp only [Nat.zero_le, true_and, Nat.sub_zero]
+  cases c with
+  | nil => simp [contourMask]
+  | cons p r =>
+    by_cases hi : i < (p :: r).length
+    · have h := maskGo_getD dropTest p (p :: r) (r.getLastD p) i hi
+      rw [List.getD_eq_getElem?_getD] at h
+      show (maskGo dropTest p (r.getLastD p) (p :: r))[i]?.getD false = true ↔ _
+      rw [h]
+      simp only [hi, true_and]
+      have e1 : (if i = 0 then r.getLastD p else (p :: r).getD (i - 1) p) =
+          (p :: r).getD ((i + (p :: r).length - 1) % (p :: r).length) d := by
+        by_cases h0 : i = 0
+        · subst h0
+          rw [if_pos rfl, Nat.zero_add, length_cons, Nat.add_sub_cancel, Nat.mod_eq_of_lt (Nat.lt_succ_self _),
+            getD_length_cons]
+        · rw [if_neg h0]
+          have : (i + (p :: r).length - 1) % (p :: r).length = i - 1 := by
+            have : i + (p :: r).length - 1 = (i - 1) + (p :: r).length := by omega
+            rw [this, Nat.add_mod_right, Nat.mod_eq_of_lt (by omega)]
+          rw [this, List.getD_eq_getElem?_getD, List.getD_eq_getElem?_getD, getElem?_eq_getElem (by omega)]; rfl
+      have e2 : (p :: r).getD i p = (p :: r).getD i d := by
+        rw [List.getD_eq_getElem?_getD, List.getD_eq_getElem?_getD, getElem?_eq_getElem hi]; rfl
+      have e3 : (if i + 1 < (p :: r).length then (p :: r).getD (i + 1) p else p) =
+          (p :: r).getD ((i + 1) % (p :: r).length) d := by
+        by_cases h1 : i + 1 < (p :: r).length
+        · rw [if_pos h1, Nat.mod_eq_of_lt h1, List.getD_eq_getElem?_getD, List.getD_eq_getElem?_getD,
+            getElem?_eq_getElem h1]; rfl
+        · have : i + 1 = (p :: r).length := by omega
+          rw [if_neg h1, this, Nat.mod_self]; rfl
+      rw [e1, e2, e3]
+    · have : (contourMask dropTest (p :: r))[i]? = none := by
+        rw [getElem?_eq_none]
+        show (maskGo dropTest p (r.getLastD p) (p :: r)).length ≤ i
+        rw [maskGo_length]; omega
+      rw [this]
+      constructor
+      · intro h; simp at h
+      · intro h; exact absurd h.1 hi
+
+/-- `mayDrop_spec` is about something: index 1 of `exC` sits between points 0 and 2 -/
+example : 1 ∈ mayDrop exC ∧ 3 ∈ mayDrop exC ∧ 5 ∉ mayDrop exC := by decide +kernel
+
 end Ufo2ft.C02
